@@ -300,3 +300,26 @@ Definition pcl_isabstract (p : pyclass) : bool := match p with PCL _ a _ => a en
 Definition pcl_subclasses (p : pyclass) : list pyclass := match p with PCL _ _ s => s end.
 (* subclass(record) *)
 Definition mk_entity (p : pyclass) (r : pyrecord) : entity := ENT 0 (pcl_cls p) r.
+
+(* ---------- constructors and reverse complement of Biopython records ------------------ *)
+
+(* SeqRecord.__init__(self, seq, id, name, description, dbxrefs, features, annotations,
+   letter_annotations) reached through super() from a subclass of the given kind; `annotations`
+   is None or a dictionary, of which the topology entry is kept *)
+Definition bio_SeqRecord_init (k : reckind) (seq : pyrecord) (id : nat) (_ _ _ : unit) (features : list feature)
+           (annotations : option (option string)) (letter_annotations : list (list Z)) : pyrecord :=
+  PR k (pr_seq seq) id features (match annotations with Some a => a | None => None end) letter_annotations.
+
+(* record.annotations as a dictionary object (a SeqRecord always has one) *)
+Definition rec_annotations_dict (r : pyrecord) : option (option string) := Some (pr_annotations r).
+
+(* SeqRecord.reverse_complement(id=, name=, description=, features=, annotations=,
+   letter_annotations=, dbxrefs=) (Biopython): a plain SeqRecord with the reverse complement
+   sequence; features flipped and sorted when features=True, tracks reversed when
+   letter_annotations=True, annotations kept only when annotations=True; identifiers kept
+   unless False is passed (modelled: the identity is carried) *)
+Definition bio_reverse_complement (r : pyrecord) (id name description features annotations letter_annotations dbxrefs : bool)
+  : pyrecord :=
+  let rc_ := rc_record (to_record r) in
+  PR KSeqRecord (rseq rc_) (pr_id r) (if features then rfeats rc_ else [])
+     (if annotations then pr_annotations r else None) (if letter_annotations then rtracks rc_ else []).
